@@ -268,6 +268,16 @@ pub fn long_term_key(alg: u16, user: &str, realm: &str, password: &str) -> Vec<u
     }
 }
 
+/// OpaqueString (RFC 8265) for the *generator's table of credential strings only*: non-ASCII spaces are
+/// mapped to U+0020 and the two non-NFC sequences the table uses are composed. This is not a PRECIS
+/// implementation; it is the a-priori known result for exactly the strings the simulator generates.
+pub fn opaque_known(s: &str) -> String {
+    s.replace('\u{a0}', " ")
+        .replace('\u{2003}', " ")
+        .replace("e\u{301}", "\u{e9}")
+        .replace('\u{212b}', "\u{c5}")
+}
+
 pub fn user_hash(user: &str, realm: &str) -> Vec<u8> {
     sha256(format!("{}:{}", user, realm).as_bytes()).to_vec()
 }
